@@ -141,6 +141,37 @@ Theorem C15_abstracted_functions_pinned :
   FP_cancel_task = 834680327868759807%N.
 Proof. repeat split. Qed.
 
+(* --- helpers the tracking code relies on (phase 8), pinned by fingerprint: EventBus.emit / register / _get_listeners_for_event,
+   tasks.BackgroundTask, Network.send_server_messages, UserManager.track_user / untrack_user / get_user_object /
+   get_tracking_flags / get_tracking_state, UserTrackingManager.__init__ / register_listeners / get_tracking_flags /
+   get_tracking_state / _request_tracking, TrackedUser, the AddUser and RemoveUser message classes, TransferManager.
+   get_unfinished_transfers / get_finished_transfers / request_management_cycle, Transfer.is_finalized (the TrackingState members
+   and the set of finalized transfer states are checked by the translator) *)
+Theorem C15_helpers_pinned :
+  FPH_EventBus_emit = 959740788368092312%N /\
+  FPH_EventBus_register = 666991538698341251%N /\
+  FPH_EventBus_get_listeners_for_event = 990525461453454903%N /\
+  FPH_BackgroundTask = 822735056907528036%N /\
+  FPH_Network_send_server_messages = 1087691849633744863%N /\
+  FPH_UserManager_track_user = 80710374995224882%N /\
+  FPH_UserManager_untrack_user = 36914167514717004%N /\
+  FPH_UserManager_get_user_object = 873124460846445343%N /\
+  FPH_UserManager_get_tracking_flags = 511929712093830611%N /\
+  FPH_UserManager_get_tracking_state = 681124710133458897%N /\
+  FPH_UTM_init = 589266777353479722%N /\
+  FPH_UTM_register_listeners = 239494271121900949%N /\
+  FPH_UTM_get_tracking_flags = 314393232255700659%N /\
+  FPH_UTM_get_tracking_state = 476185404223505452%N /\
+  FPH_UTM_request_tracking = 193878626661645289%N /\
+  FPH_TrackedUser = 922623955488893512%N /\
+  FPH_AddUser = 884285632659344610%N /\
+  FPH_RemoveUser = 1002275625847221610%N /\
+  FPH_TM_get_unfinished_transfers = 288735165544893479%N /\
+  FPH_TM_get_finished_transfers = 740743299884858081%N /\
+  FPH_TM_request_management_cycle = 472085617073922667%N /\
+  FPH_Transfer_is_finalized = 328263841815707308%N.
+Proof. repeat split. Qed.
+
 (* --- non-vacuity ------------------------------------------------------------------------------------------ *)
 Example C15_nonvacuous :
   (let es := [Track 1; WorkerStep; WorkerStep; ServerReply RSilence] in
